@@ -47,7 +47,7 @@ Proof.
   { destruct ref as [r0|]; cbn in Hp.
     - destruct (locate_inv s p r0 I Hp) as (i & b & j & Hb & Ht & Ek & Hh & Hi).
       exists i, b, j. split; [exact Hb|]. split; [apply nth_error_in_len in Ht; lia|]. split; [exact Ek|].
-      unfold check_handle. fold (hnd s r0). rewrite Hh. fold (bidx s b). rewrite Hi. reflexivity.
+      rewrite check_handle_hnd, Hh. fold (bidx s b). rewrite Hi. reflexivity.
     - destruct (first_block s I) as [b0 Hb0]. exists 0%nat, b0, 0%nat.
       split; [exact Hb0|]. split; [lia|]. split; [subst p; reflexivity|reflexivity]. }
   unfold splice in H. rewrite Est in H.
@@ -66,7 +66,7 @@ Proof.
       pose proof (nth_error_in_len _ _ _ Ht) as Lj.
       exists i, b, (S j). split; [exact Hb|]. split; [lia|]. split; [lia|]. split.
       + apply (order_of_lt (toks s) (s_blocks s) si bs sj i b (S j)); auto. lia.
-      + unfold check_handle. fold (hnd s d). rewrite Hh. fold (bidx s b). rewrite Hi. do 2 f_equal. lia.
+      + rewrite check_handle_hnd, Hh. fold (bidx s b). rewrite Hi. do 2 f_equal. lia.
     - exists si, bs, sj. split; [exact Hbs|]. split; [exact Lsj|]. split; [lia|]. split; [right; lia|reflexivity]. }
   rewrite Een in H.
   unfold list_splice. rewrite Ep, Eq. apply (splice__spec LF s tokens si sj ei ej bs be s' r HLF II Hbs Hbe Lsj Lej Hord NDt); [|exact H].
@@ -98,7 +98,7 @@ Proof.
     - destruct Hp as [L1 Hr]. destruct (locate_inv s (p - 1) r0 I Hr) as (i & b & j & Hb & Ht & Ek & Hh & Hi).
       pose proof (nth_error_in_len _ _ _ Ht) as Lj.
       exists i, b, (S j). split; [exact Hb|]. split; [lia|]. split; [lia|].
-      unfold check_handle in H. fold (hnd s r0) in H. rewrite Hh in H. fold (bidx s b) in H. rewrite Hi in H.
+      rewrite check_handle_hnd, Hh in H. fold (bidx s b) in H. rewrite Hi in H.
       replace (Z.of_nat j + 1) with (Z.of_nat (S j)) in H by lia. exact H.
     - destruct (first_block s I) as [b0 Hb0]. exists 0%nat, b0, 0%nat.
       split; [exact Hb0|]. split; [lia|]. split; [subst p; reflexivity|exact H]. }
